@@ -184,7 +184,7 @@ func outs(keys []string, dir, flow string, choices []string) []map[string]string
 	return res
 }
 
-var txnN int
+var txnN, sampleN int
 
 func checkConfig(r *mc.Run, family string, files eng.Files, plans []map[string]string, desc string) {
 	if family == "oddities" {
@@ -201,6 +201,10 @@ func checkConfig(r *mc.Run, family string, files eng.Files, plans []map[string]s
 			return
 		}
 		r.Add("rejected", 1)
+		sampleN++
+		if sampleN%397 == 2 || family == "oddities" {
+			r.Sample(map[string]any{"family": family, "configuration": desc, "verdict": "rejected: " + cut(verr.Error())})
+		}
 		r.Outcome("rejected: " + cut(verr.Error()))
 		return
 	}
@@ -220,6 +224,10 @@ func checkConfig(r *mc.Run, family string, files eng.Files, plans []map[string]s
 		return
 	}
 	r.NonTrivial(family + "|" + desc)
+	sampleN++
+	if sampleN%97 == 1 || family == "oddities" {
+		r.Sample(map[string]any{"family": family, "configuration": desc, "verdict": "accepted by the validator", "inputs_run": len(plans)})
+	}
 	for _, plan := range plans {
 		for _, t := range txns {
 			txnN++
